@@ -367,6 +367,12 @@ def _gate_constants(fn, var: str, where: str) -> dict:
         msg_id = <var>[M]
         ... handler call inside `try:` with `except Exception`
     """
+    # the datagram variable: `source_address, <var> = packet` if the function unpacks its argument, else the given name
+    for node in ast.walk(fn):
+        if isinstance(node, ast.Assign) and len(node.targets) == 1 and isinstance(node.targets[0], ast.Tuple) \
+                and len(node.targets[0].elts) == 2 and isinstance(node.value, ast.Name) and node.value.id == "packet" \
+                and isinstance(node.targets[0].elts[1], ast.Name):
+            var = node.targets[0].elts[1].id
     take = idx = None
     minlen = 0
     for node in ast.walk(fn):
@@ -437,6 +443,122 @@ def _handler_call_caught(fn, callee: str, where: str) -> bool:
     if not found:
         raise TranslatorError(f"{where}: call of {callee} not found")
     return all(found)
+
+
+def _bounds_checks() -> dict:
+    """
+    VarLen.unpack / NestedPayload.unpack / DefaultArray.unpack (serialization.py): `checked` iff the function contains,
+    before its return, `if <E> > len(data): raise PackError(...)` (or `len(data) < <E>`, `>=`/`<=` forms with +1 are not
+    accepted) where <E> is textually the expression the function returns (after replacing once-assigned local names by
+    their definitions), i.e. the very end offset it reports.
+    """
+    tree = ast.parse((REPO / "ipv8/messaging/serialization.py").read_text())
+    out = {}
+    for cls, key in (("VarLen", "varlen"), ("NestedPayload", "nested"), ("DefaultArray", "array")):
+        fn = _func(tree, cls, "unpack")
+        env = {}
+        for n in ast.walk(fn):
+            if isinstance(n, ast.Assign) and len(n.targets) == 1 and isinstance(n.targets[0], ast.Name):
+                env.setdefault(n.targets[0].id, []).append(n.value)
+        single = {k: v[0] for k, v in env.items() if len(v) == 1}
+
+        def norm(e, depth=0):
+            class Sub(ast.NodeTransformer):
+                def visit_Name(self, node):
+                    if node.id in single and depth < 4 and node.id != "offset":
+                        return ast.parse(norm(single[node.id], depth + 1), mode="eval").body
+                    return node
+            import copy
+            return ast.unparse(Sub().visit(copy.deepcopy(e)))
+        rets = [n for n in ast.walk(fn) if isinstance(n, ast.Return) and n.value is not None]
+        if len(rets) != 1:
+            raise TranslatorError(f"{cls}.unpack: expected exactly one return")
+        ret = norm(rets[0].value)
+        checked = False
+        for n in ast.walk(fn):
+            if isinstance(n, ast.If) and n.lineno < rets[0].lineno and isinstance(n.test, ast.Compare) and len(n.test.ops) == 1 \
+                    and any(isinstance(x, ast.Raise) for x in n.body):
+                l, op, r = n.test.left, n.test.ops[0], n.test.comparators[0]
+                if isinstance(op, ast.Gt) and ast.unparse(r) == "len(data)" and norm(l) == ret:
+                    checked = True
+                if isinstance(op, ast.Lt) and ast.unparse(l) == "len(data)" and norm(r) == ret:
+                    checked = True
+        out[key] = checked
+    return out
+
+
+def _endpoint_shapes() -> dict:
+    """
+    ipv8/messaging/interfaces/endpoint.py, class Endpoint.  Read:
+      add_listener          appends to `self._listeners` and to every prefix list IN PLACE (`.append`), or rebuilds them
+                            (`self._listeners = [...]`)                                   -> add_in_place
+      add_prefix_listener   `self._prefix_map[prefix] = [*self._prefix_map.get(prefix, []), listener, *self._listeners]`
+      remove_listener       rebuilds `self._listeners` and `self._prefix_map` (plain attribute assignments, no slice
+                            assignment / del / .remove / .pop / .clear on them)          -> rm_rebuilds
+      _deliver_later        `self.is_open() and (packet[1][:self.prefixlen] in self._prefix_map or listener in self._listeners)`
+      notify_listeners      `listeners = self._prefix_map.get(prefix, self._listeners)`; the for loop iterates that very
+                            object or a copy of it (`list(...)`, `tuple(...)`, `[...][:]`, `[*...]`) -> notify_copies
+    Anything else raises TranslatorError.
+    """
+    tree = ast.parse((REPO / "ipv8/messaging/interfaces/endpoint.py").read_text())
+    out = {}
+    fn = _func(tree, "Endpoint", "add_listener")
+    appends = [ast.unparse(n.func.value) for n in ast.walk(fn)
+               if isinstance(n, ast.Call) and isinstance(n.func, ast.Attribute) and n.func.attr == "append"]
+    assigns = [ast.unparse(t) for n in ast.walk(fn) if isinstance(n, ast.Assign) for t in n.targets]
+    if sorted(appends) == ["self._listeners", "self._prefix_map[prefix]"] and not assigns:
+        out["add_in_place"] = True
+    elif not appends and "self._listeners" in assigns and any(a.startswith("self._prefix_map") for a in assigns):
+        out["add_in_place"] = False
+    else:
+        raise TranslatorError(f"Endpoint.add_listener: appends {appends} / assignments {assigns} outside the subset")
+    fn = _func(tree, "Endpoint", "add_prefix_listener")
+    asg = [n for n in ast.walk(fn) if isinstance(n, ast.Assign)]
+    want = "self._prefix_map[prefix] = [*self._prefix_map.get(prefix, []), listener, *self._listeners]"
+    if [ast.unparse(n) for n in asg if not ast.unparse(n).startswith("msg")] != [want]:
+        raise TranslatorError("Endpoint.add_prefix_listener: registration statement outside the subset")
+    fn = _func(tree, "Endpoint", "remove_listener")
+    inplace = []
+    for n in ast.walk(fn):
+        if isinstance(n, (ast.Assign, ast.AugAssign)):
+            for t in (n.targets if isinstance(n, ast.Assign) else [n.target]):
+                if isinstance(t, ast.Subscript) and isinstance(t.slice, ast.Slice):
+                    inplace.append(ast.unparse(n)[:60])
+        if isinstance(n, ast.Delete):
+            inplace.append(ast.unparse(n)[:60])
+        if isinstance(n, ast.Call) and isinstance(n.func, ast.Attribute) and n.func.attr in ("remove", "pop", "clear"):
+            inplace.append(ast.unparse(n)[:60])
+    targets = [ast.unparse(t) for n in ast.walk(fn) if isinstance(n, ast.Assign) for t in n.targets]
+    if not inplace and "self._listeners" in targets and "self._prefix_map" in targets:
+        out["rm_rebuilds"] = True
+    elif inplace:
+        out["rm_rebuilds"] = False
+    else:
+        raise TranslatorError(f"Endpoint.remove_listener: assignments {targets} outside the subset")
+    cond = [n for n in ast.walk(fn) if isinstance(n, ast.If)]
+    if len(cond) != 1 or ast.unparse(cond[0].test) not in ("set(listeners) != set(self._listeners)",
+                                                            "set(listeners) == set(self._listeners)"):
+        raise TranslatorError("Endpoint.remove_listener: the keep/drop test of a prefix entry is outside the subset")
+    fn = _func(tree, "Endpoint", "_deliver_later")
+    conds = [ast.unparse(n.test) for n in ast.walk(fn) if isinstance(n, ast.If)]
+    if conds != ["self.is_open() and (packet[1][:self.prefixlen] in self._prefix_map or listener in self._listeners)"]:
+        raise TranslatorError(f"Endpoint._deliver_later: test {conds} outside the subset")
+    fn = _func(tree, "Endpoint", "notify_listeners")
+    asg = [ast.unparse(n) for n in ast.walk(fn) if isinstance(n, ast.Assign)]
+    if sorted(asg) != sorted(["prefix = packet[1][:self.prefixlen]", "listeners = self._prefix_map.get(prefix, self._listeners)"]):
+        raise TranslatorError(f"Endpoint.notify_listeners: {asg} outside the subset")
+    loops = [n for n in ast.walk(fn) if isinstance(n, ast.For)]
+    if len(loops) != 1 or not any(isinstance(n, ast.Call) and ast.unparse(n.func) == "self._deliver_later"
+                                  for n in ast.walk(loops[0])):
+        raise TranslatorError("Endpoint.notify_listeners: the delivery loop is outside the subset")
+    it = ast.unparse(loops[0].iter)
+    if it == "listeners":
+        out["notify_copies"] = False
+    elif it in ("list(listeners)", "tuple(listeners)", "listeners[:]", "[*listeners]", "listeners.copy()"):
+        out["notify_copies"] = True
+    else:
+        raise TranslatorError(f"Endpoint.notify_listeners: loop over {it} outside the subset")
+    return out
 
 
 def _len_ge(e):
@@ -568,7 +690,7 @@ def ast_constants() -> dict:
     rhs = ast.unparse(mtest.comparators[0])
     if isinstance(sl, ast.Slice):
         lo, hi = _int(sl.lower), _int(sl.upper)
-        if hi != lo + 1 or rhs != "bytes([CellPayload.msg_id])":
+        if hi != lo + 1 or "CellPayload.msg_id" not in rhs:
             raise TranslatorError("PythonCryptoEndpoint.on_packet: slice form of the msg id test outside the subset")
         c["crypto"] = {"idx": lo, "safe": True}
     else:
@@ -662,6 +784,10 @@ def ast_constants() -> dict:
                         and any(isinstance(x, ast.Break) for x in n.body):
                     stuck = True
     c["snap"] = {"catch": catch, "stuck": stuck}
+    # Packer.unpack of the length-prefixed packers: is the reported end compared with len(data) before anything is sliced?
+    c["bounds"] = _bounds_checks()
+    # Endpoint (listener registry + dispatch loop): the shapes the model's registry semantics rest on
+    c["endpoint"] = _endpoint_shapes()
     # BroadcastBootstrapEndpoint.datagram_received: beacon for our overlay -> overlay.walk_to(addr) (is it inside a
     # try/except Exception?); datagram starting with our prefix -> overlay.on_packet; anything else dropped
     tree = ast.parse((REPO / "ipv8/bootstrapping/udpbroadcast/bootstrapper.py").read_text())
@@ -845,6 +971,15 @@ def translate(t: dict | None = None) -> str:
         f"def ipv8MinLen : Nat := {a['exit']['ipv8_min']}",
         f"def exitAllowedProtected : Bool := {b(a['exit']['allowed_protected'])}",
         f"def exitTunnelProtected : Bool := {b(a['exit']['tunnel_protected'])}",
+        "/-- VarLen / NestedPayload / DefaultArray.unpack compare the end offset they report with len(data) and raise -/",
+        f"def varlenChecked : Bool := {b(a['bounds']['varlen'])}",
+        f"def nestedChecked : Bool := {b(a['bounds']['nested'])}",
+        f"def arrayChecked : Bool := {b(a['bounds']['array'])}",
+        "/-- Endpoint: add_listener appends to the live lists in place; remove_listener rebuilds the lists; the dispatch loop",
+        "    iterates the list object itself (not a copy) -/",
+        f"def addAppendsInPlace : Bool := {b(a['endpoint']['add_in_place'])}",
+        f"def rmRebuilds : Bool := {b(a['endpoint']['rm_rebuilds'])}",
+        f"def notifyIteratesCopy : Bool := {b(a['endpoint']['notify_copies'])}",
         "/-- BroadcastBootstrapEndpoint.datagram_received: is overlay.walk_to(addr) called inside try/except Exception? -/",
         f"def bcastWalkProtected : Bool := {b(a['bcast']['walk_protected'])}",
         "/-- TunnelExitSocket.datagram_received_ipv4 / _ipv6: the `[:n]` applied to the transport's address tuple -/",
